@@ -2795,4 +2795,289 @@ theorem abs_extrapolate_list (s r : Series) (coeffs : List Rat) (c : Rat) (a : I
         rw [h7, h9 k t v hk (by omega) hv]
 
 
+/-! ### general variant requests, rejections, Series on the right-hand side of a write -/
+
+
+/-- `vs` are the indices numpy normalises the request `vids` to (negative ones count from the back) -/
+def Normalises (nv : Nat) (vids : List Int) (vs : List Nat) : Prop :=
+  vids.length = vs.length ∧ ∀ (i : Nat) (c : Int) (v : Nat), vids[i]? = some c → vs[i]? = some v → normIdx nv c = some v
+
+/-- `pickRow` for any variant request whose indices numpy accepts -/
+theorem pickRow_forall2 (nv : Nat) (row : Row) : ∀ (vids : List Int) (vs : List Nat), Normalises nv vids vs →
+    pickRow nv row vids = .ok (vs.map (fun v => (row[v]?).getD none)) := by
+  intro vids
+  induction vids with
+  | nil => intro vs h; cases vs with | nil => rfl | cons _ _ => simp [Normalises] at h
+  | cons c cs ih =>
+    intro vs h
+    cases vs with
+    | nil => simp [Normalises] at h
+    | cons v vs' =>
+      have hc : normIdx nv c = some v := h.2 0 c v (by simp) (by simp)
+      have ht : Normalises nv cs vs' := ⟨by simpa using h.1, fun i c' v' h1 h2 => h.2 (i + 1) c' v' (by simpa using h1) (by simpa using h2)⟩
+      have := ih vs' ht
+      unfold pickRow at this ⊢
+      rw [List.mapM_cons, this, hc]
+      rfl
+
+/-- an index numpy rejects makes the read raise -/
+theorem pickRow_rejects (nv : Nat) (row : Row) : ∀ (vids : List Int), (∃ c ∈ vids, normIdx nv c = none) →
+    pickRow nv row vids = .error .badInput := by
+  intro vids
+  induction vids with
+  | nil => rintro ⟨c, hc, _⟩; simp at hc
+  | cons c cs ih =>
+    rintro ⟨c', hc', hn⟩
+    unfold pickRow at ih ⊢
+    rw [List.mapM_cons]
+    cases hcn : normIdx nv c with
+    | none => rfl
+    | some v =>
+      have : ∃ c'' ∈ cs, normIdx nv c'' = none := by
+        rcases List.mem_cons.mp hc' with rfl | h'
+        · rw [hcn] at hn; cases hn
+        · exact ⟨c', h', hn⟩
+      rw [ih this]; rfl
+
+/-- **A read returns the map, for every variant request the code accepts** (bare or listed indices, negative ones, slices —
+anything `_resolve_variants` turns into indices that numpy accepts; `vs` are the normalised indices) -/
+theorem getData_eq_abs_general (s : Series) (hW : WF s) (serials : List Int) (vids : List Int) (vs : List Nat)
+    (h : Normalises s.nv vids vs) :
+    s.getData serials vids = .ok (serials.map (fun t => vs.map (fun v => s.abs t v))) := by
+  have hvs : ∀ v ∈ vs, v < s.nv := by
+    intro v hv
+    obtain ⟨i, hi⟩ := List.mem_iff_getElem?.mp hv
+    have hil : i < vids.length := by
+      rw [h.1]; rcases List.getElem?_eq_some_iff.mp hi with ⟨hh, _⟩; exact hh
+    exact normIdx_lt _ _ _ (h.2 i vids[i] v (by simp [hil]) hi)
+  have hbase := getData_eq_abs s hW serials vs hvs
+  unfold Series.getData at hbase ⊢
+  by_cases he : serials.isEmpty = true
+  · rw [if_pos he] at hbase ⊢
+    rw [pickRow_forall2 _ _ _ _ h]
+    rw [pickRow_valid _ _ _ hvs] at hbase
+    exact hbase
+  · rw [if_neg he] at hbase ⊢
+    simp only at hbase ⊢
+    rw [← hbase]
+    congr 1
+    funext p
+    rw [pickRow_forall2 _ _ _ _ h, pickRow_valid _ _ _ hvs]
+
+/-- **…and rejects what the code rejects**: a variant index outside `[-nv, nv)` raises, whatever the dates -/
+theorem getData_rejects (s : Series) (serials : List Int) (vids : List Int) (h : ∃ c ∈ vids, normIdx s.nv c = none) :
+    s.getData serials vids = .error .badInput := by
+  unfold Series.getData
+  by_cases he : serials.isEmpty = true
+  · rw [if_pos he, pickRow_rejects _ _ _ h]; rfl
+  · rw [if_neg he]
+    simp only
+    have hne : (getDatePositions serials (s.start.getD (minOr0 serials)) s.rows.length).pos ≠ [] := by
+      simp only [getDatePositions]
+      intro h0
+      apply he
+      simpa using h0
+    cases hp : (getDatePositions serials (s.start.getD (minOr0 serials)) s.rows.length).pos with
+    | nil => exact absurd hp hne
+    | cons p ps =>
+      rw [List.mapM_cons, pickRow_rejects _ _ _ h]; rfl
+
+theorem mapM_serialsOf_error (f : Freq) : ∀ (ps : List Period), (∃ p ∈ ps, p.freq ≠ f) → serialsOf f ps = .error .mixedFreq := by
+  intro ps
+  induction ps with
+  | nil => rintro ⟨p, hp, _⟩; simp at hp
+  | cons q qs ih =>
+    rintro ⟨p, hp, hne⟩
+    unfold serialsOf at ih ⊢
+    rw [List.mapM_cons]
+    by_cases hq : q.freq = f
+    · have : ∃ p' ∈ qs, p'.freq ≠ f := by
+        rcases List.mem_cons.mp hp with rfl | h'
+        · exact absurd hq hne
+        · exact ⟨p, h', hne⟩
+      rw [ih this]; simp only [hq, if_true]; rfl
+    · simp only [hq, if_false]; rfl
+
+/-- **mixing frequencies in a write or a read is rejected**: a date whose frequency differs from the series' (or, on an empty
+series, from the first date's) raises `mixedFreq`, as `t - base` does in `_get_date_positions` -/
+theorem dates_mixed_rejected (s : Series) (ps : List Period) (data : DataArg) (vars : VarArg)
+    (h : ∃ p ∈ ps, p.freq ≠ s.freqFor ps) :
+    s.setDataP ps data vars = .error .mixedFreq ∧ s.getDataP ps vars = .error .mixedFreq := by
+  have hne : ¬ (ps.isEmpty = true ∧ data.isEmptyData = true) := by
+    rintro ⟨h1, _⟩
+    obtain ⟨p, hp, _⟩ := h
+    rw [List.isEmpty_iff.mp h1] at hp; simp at hp
+  constructor
+  · unfold Series.setDataP
+    rw [if_neg hne]
+    simp only [mapM_serialsOf_error _ ps h, bind, Except.bind]
+  · unfold Series.getDataP
+    simp only [mapM_serialsOf_error _ ps h, bind, Except.bind]
+
+
+/-- when the map-level write is undefined (a variant index numpy rejects, or a column whose length fits neither the dates nor 1)
+the assignment loop of the code raises -/
+theorem assignAll_error_of_writeAll_none (nv : Nat) (serials : List Int) (pos : List Nat) (hl : pos.length = serials.length)
+    (data : DataArg) : ∀ (vids : List Int) (m : Map) (rows : List Row) (k : Nat),
+    Map.writeAll m nv serials data vids k = none → assignAll nv rows pos data vids k = .error .badInput := by
+  intro vids
+  induction vids with
+  | nil => intro m rows k h; simp [Map.writeAll] at h
+  | cons c cs ih =>
+    intro m rows k h
+    simp only [Map.writeAll] at h
+    simp only [assignAll, hl]
+    cases hn : normIdx nv c with
+    | none => rfl
+    | some v =>
+      cases hv : (data.variant k).values serials.length with
+      | none => rfl
+      | some vals =>
+        simp only [hn, hv] at h
+        exact ih _ _ _ h
+
+/-- **a write rejects what the code rejects**: if the elementary writes are undefined (`Map.writeAll = none`) and the call is
+not the "no dates, no data" no-op, `set_data` raises -/
+theorem setData_rejects (s : Series) (serials : List Int) (data : DataArg) (vids : List Int)
+    (hne : ¬ (serials.isEmpty = true ∧ data.isEmptyData = true))
+    (h : Map.writeAll s.abs s.nv serials data vids 0 = none) :
+    s.setData serials data vids = .error .badInput := by
+  unfold Series.setData
+  rw [if_neg hne]
+  by_cases c2 : data.isEmptyData = true ∧ data ≠ .pyNone
+  · rw [if_pos c2]; rfl
+  · rw [if_neg c2]
+    cases hs : s.start with
+    | some st =>
+      simp only
+      rw [assignAll_error_of_writeAll_none s.nv serials _ (by simp [getDatePositions]) data vids s.abs _ 0 h]
+    | none =>
+      simp only
+      rw [assignAll_error_of_writeAll_none s.nv serials _ (by simp [getDatePositions]) data vids s.abs _ 0 h]
+
+
+
+theorem exhaustThenLast_last {α} (l : List α) (d x : α) (k : Nat) (hk : l.length ≤ k) (hl : l[l.length - 1]? = some x) :
+    exhaustThenLast l d k = x := by
+  simp [exhaustThenLast, List.getElem?_eq_none hk, List.getLast?_eq_getElem?, hl]
+
+/-- **a Series on the right-hand side of a write** (serial level): the values are read from the source period by period over
+the addressed dates (`data.get_data(dates)`) and written with the exhaust-then-last rule — variant `v` of the receiver takes
+variant `min v (nv_source - 1)` of the source at the same period; every other cell of the receiver is unchanged -/
+theorem abs_setFromSeries (s y r : Series) (serials : List Int) (hnd : serials.Nodup) (hne : serials ≠ [])
+    (hI : Inv s) (hy : Inv y) (hynv : 0 < y.nv) (d : List Row)
+    (hd : y.getData serials (allVids y) = .ok d)
+    (h : s.setData serials (.array (transpose y.nv d)) (allVids s) = .ok r) :
+    (∀ t v, t ∉ serials → r.abs t v = s.abs t v) ∧
+    (∀ (i : Nat) (t : Int) (v : Nat), serials[i]? = some t → v < s.nv → r.abs t v = y.abs t (min v (y.nv - 1))) := by
+  have hdata : d = serials.map (fun t => (List.range y.nv).map (fun v => y.abs t v)) := by
+    have := getData_eq_abs y hy.2 serials (List.range y.nv) (fun v hv => List.mem_range.mp hv)
+    simp only [allVids, resolveVariants] at hd
+    rw [this] at hd
+    exact (Except.ok.inj hd).symm
+  have hcols : ∀ k, k < y.nv → (transpose y.nv d)[k]? = some (serials.map (fun u => y.abs u k)) := by
+    intro k hk
+    simp only [transpose, List.getElem?_map, List.getElem?_range hk, Option.map_some, hdata, List.map_map]
+    congr 1
+    apply List.map_congr_left
+    intro u _
+    simp [Function.comp, List.getElem?_map, List.getElem?_range hk]
+  obtain ⟨_, _, _, h4⟩ := setData_spec _ _ _ _ r hI h
+  rcases h4 with ⟨h0, _⟩ | ⟨_, _, mm, h6, h7⟩
+  · exact absurd h0 hne
+  · let colf : Nat → List Cell := fun k => serials.map (fun u => y.abs u (min k (y.nv - 1)))
+    have hlen : (transpose y.nv d).length = y.nv := by simp [transpose]
+    have hcol : ∀ k, k < s.nv →
+        ((DataArg.array (transpose y.nv d)).variant k).values serials.length = some (colf k) ∧
+        (colf k).length = serials.length := by
+      intro k _
+      refine ⟨?_, by simp [colf]⟩
+      simp only [DataArg.variant]
+      by_cases hk : k < y.nv
+      · have e : ((transpose y.nv d).map Col.column)[k]? = some (Col.column (colf k)) := by
+          rw [List.getElem?_map, hcols k hk]
+          have : min k (y.nv - 1) = k := by omega
+          simp [colf, this]
+        rw [exhaustThenLast_get _ _ _ k e]
+        simp [Col.values, colf]
+      · have e : ((transpose y.nv d).map Col.column)[((transpose y.nv d).map Col.column).length - 1]? =
+            some (Col.column (colf k)) := by
+          rw [List.length_map, hlen, List.getElem?_map, hcols (y.nv - 1) (by omega)]
+          have : min k (y.nv - 1) = y.nv - 1 := by omega
+          simp [colf, this]
+        rw [exhaustThenLast_last _ _ _ k (by rw [List.length_map, hlen]; omega) e]
+        simp [Col.values, colf]
+    obtain ⟨m', h8, h9, h10⟩ := writeAll_nodup s.nv serials hnd _ colf hcol s.nv 0 s.abs (by omega)
+    have hv0 : allVids s = (List.range' 0 s.nv).map (fun (i : Nat) => (i : Int)) := by
+      simp [allVids, resolveVariants, List.range_eq_range']
+    rw [hv0, h8] at h6
+    simp only [Option.some.injEq] at h6
+    subst h6
+    refine ⟨fun t v hout => by rw [h7, h10 t v (Or.inl hout)], ?_⟩
+    intro i t v hi hv
+    rw [h7, h9 i t v hi (by omega) hv]
+    simp [colf, List.getElem?_map, hi]
+
+
+/-- **`x[dates] = y` end to end** (one step of the protocol; `dates` may be relative: `...`, `ir.start >> ir.end`,
+`Span(None, None, -2)`, …): the request is resolved against the RECEIVER `x` (`hres`), the values are read from the source `y`
+at those periods, and afterwards `x` holds `y`'s value at every addressed period (variant `min v (nv_y - 1)`) and its own old
+value everywhere else. Hypotheses are about the inputs only. -/
+theorem step_set_from_series (p p' : Pool) (out : Output) (i j : Nat) (dates : DatesArg) (s y : Series) (serials : List Int)
+    (hs : p.get i = .ok s) (hy : p.get j = .ok y) (hIs : Inv s) (hIy : Inv y)
+    (st sy : Int) (hst : s.start = some st) (hsy : y.start = some sy) (hf : y.freq = s.freq) (hynv : 0 < y.nv)
+    (hres : s.resolveDates dates = .ok (serials.map (fun x => (⟨s.freq, x⟩ : Period))))
+    (hnd : serials.Nodup) (hne : serials ≠ [])
+    (h : step p (.set i dates .all (.series j)) = .ok (p', out)) :
+    ∃ r, p'[i]? = some r ∧ (∀ t v, t ∉ serials → r.abs t v = s.abs t v) ∧
+      (∀ (k : Nat) (t : Int) (v : Nat), serials[k]? = some t → v < s.nv → r.abs t v = y.abs t (min v (y.nv - 1))) := by
+  simp only [step, bind_ok, pure, Except.pure, Except.ok.injEq, Prod.mk.injEq] at h
+  obtain ⟨s0, hs0, ps, hps, dat, hdat, r, hr, q, hq, rfl, _⟩ := h
+  rw [hs] at hs0; cases hs0
+  rw [hres] at hps; cases hps
+  -- the read from the source
+  unfold dataOf at hdat
+  simp only [bind_ok] at hdat
+  obtain ⟨y0, hy0, ps', hps', d, hd, hd2⟩ := hdat
+  rw [hy] at hy0; cases hy0
+  rw [hres] at hps'; cases hps'
+  have hpsne : (serials.map (fun x => (⟨s.freq, x⟩ : Period))) ≠ [] := by simpa using hne
+  have hdne : d.isEmpty = false := by
+    cases hdd : d.isEmpty with
+    | false => rfl
+    | true => rw [hdd] at hd2; simp at hd2; cases hd2
+  rw [hdne] at hd2
+  simp only [Bool.false_eq_true, if_false, pure, Except.pure, Except.ok.injEq] at hd2
+  subst hd2
+  have hffy : y.freqFor (serials.map (fun x => (⟨s.freq, x⟩ : Period))) = s.freq := by
+    simp [Series.freqFor, hsy, hf]
+  unfold Series.getDataP at hd
+  rw [hffy] at hd
+  dsimp only at hd
+  rw [serialsOf_same] at hd
+  simp only [bind, Except.bind] at hd
+  -- the write into the receiver
+  have hffs : s.freqFor (serials.map (fun x => (⟨s.freq, x⟩ : Period))) = s.freq := by
+    simp [Series.freqFor, hst]
+  unfold Series.setDataP at hr
+  rw [if_neg (by
+    intro hh
+    exact hpsne (List.isEmpty_iff.mp hh.1))] at hr
+  rw [hffs] at hr
+  dsimp only at hr
+  rw [serialsOf_same] at hr
+  have hwf : ({ freq := s.freq, start := s.start, nv := s.nv, rows := s.rows } : Series) = s := by cases s; rfl
+  rw [hwf] at hr
+  simp only [bind, Except.bind] at hr
+  obtain ⟨e1, e2⟩ := abs_setFromSeries s y r serials hnd hne hIs hIy hynv d hd hr
+  refine ⟨r, ?_, e1, e2⟩
+  unfold Pool.put at hq
+  split at hq
+  · rename_i hlt
+    simp only [pure, Except.pure, Except.ok.injEq] at hq
+    subst hq
+    simp [List.getElem?_set, hlt]
+  · cases hq
+
+
 end IrisVerif.Series
